@@ -101,7 +101,12 @@ P["C14"] = ("proof", "Specifier part: 13 laws + complement as `==` of the return
             "over markers evaluates as the Boolean combination of its leaves, so both sides of ANY Boolean identity (all the lattice laws the property names) yield markers with the same meaning in every environment (equivalence, as the property asks; "
             "not structural equality). Ties: S-gen (specifiers), S-mark (markers); direct oracles on both parts.",
             TB_PROOF + "; " + TB_MARKER, "machine-checked proof in Coq (specifiers over the regenerated model; markers over a hand model) + correspondence", "5")
-for k in ("C02", "C04", "C06", "C17", "C03", "C12"):
+P["C11"] = ("proof", "C11_view: for EVERY comparison / ~= / wildcard atom on a version variable (any operand shape: release length, epoch, pre/post/dev suffix) `value in marker.specifier` equals the atom's evaluation on every final interpreter version; "
+            "C11_back: from_specifier(name, s) returns AnyMarker / EmptyMarker only for the universal / empty set and otherwise None or an atom that evaluates true exactly on the final versions s admits, for every canonical s with genuine remembered clauses; "
+            "C11_padding: zero padding the release segment (python_full_version) changes no comparison. Atom evaluation = packaging's Specifier.contains = clause_sem (model; compared with evaluate() and packaging by S-bridge / S-parse). "
+            "Outside the theorems: `in`/`not in` lists (string containment: known finding pv-in-substring) - direct oracle only.",
+            TB_PARSE + "; Model/Bridge.v hand-written over tokenised atoms, tied by the S-bridge stream", "machine-checked proof in Coq over hand models + correspondence; in/not-in lists by differential oracle", "5")
+for k in ("C02", "C04", "C06", "C17", "C03", "C12", "C11"):
     ORACLE_ONLY.pop(k, None)
 checks = []
 for pid in sorted(set(P) | set(ORACLE_ONLY)):
